@@ -2,10 +2,13 @@ package c08
 
 import (
 	"encoding/json"
+	"fmt"
 	"testing"
 
 	"verifharness/internal/cmpx"
+	"verifharness/internal/ev"
 	"verifharness/internal/gen"
+	"verifharness/internal/kf"
 
 	"github.com/ipfs/ipfs-cluster/api"
 	multiaddr "github.com/multiformats/go-multiaddr"
@@ -69,4 +72,16 @@ func TestRegressBadMultiaddrJSON(t *testing.T) {
 	if err := json.Unmarshal([]byte(`{"origins":["/ip4/999.1.1.1"]}`), &p); err == nil {
 		t.Fatal("malformed origin accepted")
 	}
+}
+
+// Probe of the open finding KFAlloc (dependency: ugorji codec v1.2.6).
+func TestRegressKnownMsgpackAlloc(t *testing.T) {
+	if !kf.Open(KFAlloc) {
+		t.Skip("not listed")
+	}
+	// {"c": array32 of 0x10000000 elements} : 8 bytes announce 256 Mi entries for the CID field
+	in := []byte{0x81, 0xa1, 'c', 0xdd, 0x10, 0x00, 0x00, 0x00}
+	var p api.Pin
+	n := allocated(func() { _ = mpDecode(in, &p) })
+	ev.KnownFinding(KFAlloc, n > 100<<20, fmt.Sprintf("msgpack decode of the 8-byte input %x into api.Pin allocates %d MiB (array32 length is trusted when decoding into a byte-string field)", in, n>>20))
 }
